@@ -720,6 +720,24 @@ class FnEmitter:
                         if not p.eat(','): break
                     s.phis.setdefault(label, []).append((dest, ty, inc))
                     s.defreg(dest, ty)
+        # ATOMS: clang's sign-extension idiom  %a = shl i64 %x, C ; %b = ashr [exact] i64 %a, C  (C = 32/48/56, %a used
+        # nowhere else) is emitted as  %b = sext(trunc %x to i(64-C))  -- the same function of %x, typed like trunc+sext
+        sext_idiom = {}    # id(toks of the ashr) -> (dest, x token, C);  skip_shl: id(toks of the shl)
+        skip_shl = set()
+        if em.atoms:
+            uses = {}
+            for (label, instrs) in parsed:
+                for toks in instrs:
+                    for (k, t) in toks[2:] if (len(toks) > 2 and toks[1][1] == '=') else toks:
+                        if k == 'local': uses[t] = uses.get(t, 0) + 1
+            for (label, instrs) in parsed:
+                for t0, t1 in zip(instrs, instrs[1:]):
+                    a0 = [t for (k, t) in t0 if t not in ('nuw', 'nsw', 'exact')]
+                    a1 = [t for (k, t) in t1 if t not in ('nuw', 'nsw', 'exact')]
+                    if (len(a0) == 7 and len(a1) == 7 and a0[1] == '=' and a0[2] == 'shl' and a0[3] == 'i64' and a0[5] == ',' and a0[6] in ('32', '48', '56')
+                            and a1[1] == '=' and a1[2] == 'ashr' and a1[3] == 'i64' and a1[4] == a0[0] and a1[5] == ',' and a1[6] == a0[6]
+                            and a0[4].startswith('%') and uses.get(a0[0], 0) == 1):
+                        skip_shl.add(id(t0)); sext_idiom[id(t1)] = (a1[0], a0[4], int(a0[6]))
         s.cur_label = None
         s.emitted_labels = set()
         for (label, instrs) in parsed:
@@ -729,6 +747,17 @@ class FnEmitter:
             for toks in instrs:
                 if len(toks) > 3 and toks[1][1] == '=' and toks[2][1] == 'phi':
                     continue
+                if id(toks) in skip_shl:
+                    em.stats['instructions'] += 1; continue
+                if id(toks) in sext_idiom:
+                    dest, xtok, C = sext_idiom[id(toks)]
+                    nb = 64 - C
+                    d = s.defreg(dest, IntTy(64))
+                    x = s.V(P([('local', xtok)], em.mod).parse_value(IntTy(64)))
+                    x = '(u%d)TRUNCSRC_64_%d(%s)' % (nb, nb, x)
+                    if nb == 32: x = 'CTLA_32(%s)' % x
+                    s.emit('%s = (u64)%s;' % (d, em.sext_expr(x, IntTy(nb), 64)))
+                    em.stats['instructions'] += 1; continue
                 s.instr(toks)
                 em.stats['instructions'] += 1
 
